@@ -99,6 +99,9 @@ def make_wf(ctx, atoms, shells, conv="horton2", mo_kind="restricted", norb=None,
             occs = np.array([1.6, 0.4][:norb] + [0.0] * max(0, norb - 2))
         elif occ == "aminusb-zero":
             occs = np.array([1.0] * norb)
+        elif occ == "aminusb-singlet":
+            # open-shell singlet: one alpha and one beta electron in different orbitals (zero net spin)
+            occs = np.array([1.0] * norb)
         elif occ == "aminusb":
             occs = np.array([1.7] + [0.3] * (norb - 1))
         else:
@@ -108,6 +111,8 @@ def make_wf(ctx, atoms, shells, conv="horton2", mo_kind="restricted", norb=None,
             ab = np.array([0.3] + [0.1] * (norb - 1))
         if occ == "aminusb-zero":
             ab = np.zeros(norb)        # alpha = beta = occs / 2 although the occupations are integers
+        if occ == "aminusb-singlet":
+            ab = np.array([1.0, -1.0] + [0.0] * (norb - 2))[:norb]
         args = [mo_kind, norb, norb]
     elif mo_kind == "unrestricted":
         na = norb
